@@ -8,7 +8,8 @@
       attrs ::= ((key bytes) ..) with key indexing [id title lang],
       dom ::= (0 bytes) | (1) | (2 name attrs doms)   (names and attribute names as bytes)
     observation
-      (html tree (1 nops) same touched csr_eq perturbed_ok rebuild_ok)   hydration succeeded
+      (html tree (1 nops) same touched csr_eq [perturbed_ok rebuild_ok]) hydration succeeded (the last
+                                                                           two only when csr_eq = 1)
       (html tree (0))                                                      hydration error
       (html (-1))                                                          markup outside the parser subset
     [view2] only drives the implementation (rebuild after hydration vs the client-built twin);
@@ -124,7 +125,7 @@ Fixpoint touched (s : stree) : list path :=
 Fixpoint insert_sorted (x : nat) (l : list nat) : list nat :=
   match l with
   | [] => [x]
-  | y :: r => if Nat.leb x y then x :: l else y :: insert_sorted x r
+  | y :: r => if Nat.eqb x y then l else if Nat.leb x y then x :: l else y :: insert_sorted x r
   end.
 Definition sort_nats (l : list nat) : list nat := fold_right insert_sorted [] l.
 
@@ -160,10 +161,10 @@ Definition run_C05 (c : sexp) : sexp :=
                         | [a], [b] => dom_eqb a b
                         | _, _ => false
                         end in
-          Lst [sbytes html; tree;
-               Lst [Num 1%Z; snat (length (h_ops h))];
-               Num 1%Z;
-               snats (sort_nats (map (fun p => id_of root (rev p)) (touched st)));
-               sbool csr_eq; Num 1%Z; Num 1%Z]
+          Lst ([sbytes html; tree;
+                Lst [Num 1%Z; snat (length (h_ops h))];
+                Num 1%Z;
+                snats (sort_nats (map (fun p => id_of root (rev p)) (touched st)));
+                sbool csr_eq] ++ (if csr_eq then [Num 1%Z; Num 1%Z] else []))
       end
   end.
